@@ -733,6 +733,14 @@ class SVG:
         """
         Removes groups where possible, applies transforms, applies clip paths.
         """
+        # opacity on the root composites the document as a whole: hand it to a group
+        # around the root's children, which is then kept or flattened like any other
+        root_opacity = self.svg_root.attrib.pop("opacity", None)
+        if root_opacity is not None and len(self.svg_root):
+            group = etree.Element(f"{{{svgns()}}}g", {"opacity": root_opacity})
+            group[:] = self.svg_root[:]
+            self.svg_root.append(group)
+
         # Reversed: we want leaves first
         to_process = reversed(tuple(c for c in self.breadth_first()))
 
